@@ -38,3 +38,5 @@ pub mod c05_exhaustion;
 pub mod c12_fork;
 #[cfg(all(kani, feature = "c14"))]
 pub mod c14_buffered;
+#[cfg(all(kani, feature = "c08"))]
+pub mod c08_converter;
